@@ -153,6 +153,11 @@ static KV gen_ps_case(Ctx &ctx, bool unusual) {
   o.cheap = !ctx.tier.thorough || g::coin(3, 4);
   Method m = g::any_method();
   g::SGen sg = g::valid_setting(m, o);
+  if (g::coin(1, 4)) {
+    // one or two passwd-safe edits: whatever the library still accepts must still be a well-formed, re-usable hash
+    sg.s = g::mutate(sg.s, 2, false);
+    sg.cls = "mutated";
+  }
   size_t maxlen = 511;
   Bytes P = g::phrase(maxlen);
   (void)unusual;
